@@ -6,7 +6,7 @@ import os
 import shutil
 import tempfile
 
-from mc import core, pelgen, impl, clidrv
+from mc import subchunk, core, pelgen, impl, clidrv
 from mc.core import ChunkResult
 from mc.ref import hexdump as rhex
 
@@ -112,6 +112,8 @@ def plan(tier, seed):
     if tier == 'thorough':
         for part in range(8):
             ch.append({'k': 'pairs', 'part': part, 'parts': 8})
+    # the same under python -O (assertions stripped, __debug__ false)
+    ch += [dict(c, optimize=True) for c in [{'k': 'struct'}, {'k': 'twins'}, {'k': 'unreadable'}]]
     return ch
 
 
@@ -415,6 +417,9 @@ def _do(res, env, juncs, mode, every, step=997):
 
 
 def run_chunk(chunk):
+    routed = subchunk.route(__name__, chunk)
+    if routed is not None:
+        return routed
     res = ChunkResult()
     impl.ensure(False)
     env = Env()
